@@ -13,11 +13,12 @@ ENGINES = {
     # external harness crates: path dependencies on /repo/crates/*, public API only
     # shadow crates: regenerated from /repo's sources on every run (bin/shadowgen.py)
     "shadow_crdt": {"cwd": "$CACHE/shadow/crdt", "pkg": [], "slots": 4, "prepare": "prepare_crdt"},
+    "shadow_sync": {"cwd": "$CACHE/shadow/sync", "pkg": [], "slots": 2, "prepare": "prepare_sync"},
     "ext_c27": {"cwd": "$VERIF/harness/ext/c27", "pkg": [], "slots": 3, "copy_lock": True},
 }
-SETUP_ENGINES = ["node", "ext_c27", "shadow_crdt"]
+SETUP_ENGINES = ["node", "ext_c27", "shadow_crdt", "shadow_sync"]
 # replay include files that exist in harness sources of an engine but belong to no registered harness (yet)
-EXTRA_REPLAY_FILES = {"shadow_crdt": ["shadow_crdt"], "ext_c27": ["ext_c27"], "node": ["wire_c13", "wire_c14", "service_c29", "limiter"]}
+EXTRA_REPLAY_FILES = {"shadow_sync": ["shadow_sync"], "shadow_crdt": ["shadow_crdt"], "ext_c27": ["ext_c27"], "node": ["wire_c13", "wire_c14", "service_c29", "limiter"]}
 
 Q = ["quick", "thorough"]
 T = ["thorough"]
@@ -229,4 +230,26 @@ PROPERTIES["C22"] = {
                 "keys beyond {0,1}, clocks/values wider than u8, GMap/GSet/LWWSet frame property (same GMap::merge code path as LWWMap)",
                 "Immutable (merge panics by design), Lamport/Physical clocks as values"],
     "assumptions": ["the vcoll containers behave like std's BTreeMap on the API subset used (differential harness at size <= 2)", "laws for multi-key maps follow from single-key laws + pointwise merging (paper argument)"],
+}
+
+# ---------------------------------------------------------------------------------------------
+# C25
+
+_S25 = ["K-shadow (single file): node/sync.rs and node/sync/announce.rs copied verbatim into a shim crate; only the `use std::collections` imports are rewritten to `crate::vcoll` (bit-mask sets / 4-slot maps over the id universe {0,1,2,3}) and the `fetch` submodule declaration is dropped",
+        "NodeId = 1-byte ordered id (the algorithm only uses Ord/Eq/Copy on node ids); Doc/Visibility shims for PrivateNetwork::private_repo"]
+_F25 = ["node::sync::announce::Announcer::{new,synced_with,timed_out,to_sync,progress,finished,is_target_reached,success_counts}", "node::sync::announce::Target::new", "node::sync::ReplicationFactor::{must_reach,range,min,lower_bound,upper_bound}", "AnnouncerConfig::public"]
+PROPERTIES["C25"] = {
+    "harnesses": [
+        H("c25_announcer_new_errors", "shadow_sync", "verif_kani", "shadow_sync", tiers=Q, covers=2, functions=_F25, stubs=_S25,
+          bounds="local node, preferred / synced / unsynced sets (any subsets of 4 nodes) and replication factor (must_reach(0..=4) or range(0..=4, 0..=5)) all symbolic: construction succeeds or fails exactly as documented"),
+        H("c25_announcer_new_and_one_event", "shadow_sync", "verif_kani", "shadow_sync", tiers=Q, covers=2, functions=_F25, stubs=_S25,
+          bounds="as above + 1 sync result for a symbolic node (local, unknown, already synced included)"),
+        H("c25_announcer_two_events", "shadow_sync", "verif_kani", "shadow_sync", tiers=Q, covers=2, functions=_F25, stubs=_S25,
+          bounds="as above + 2 sync results for symbolic nodes (repeats included)"),
+        H("c25_announcer_three_events", "shadow_sync", "verif_kani", "shadow_sync", tiers=Q, covers=2, functions=_F25, stubs=_S25,
+          bounds="as above + 3 sync results for symbolic nodes (repeats included)"),
+    ],
+    "outside": ["the Fetcher (node/sync/fetch.rs: needs FetchResults / Address / VecDeque of candidates) - not encoded, so the fetcher half of the property is not claimed",
+                "more than 4 nodes / more than 3 results"],
+    "assumptions": ["reference target: every preferred seed synced AND distinct synced nodes >= replication bound (upper bound of a range, else lower bound), replication factor clamped to the number of nodes to sync at construction"],
 }
